@@ -515,6 +515,14 @@ class C12(Check):
             if txt.startswith("-"):
                 continue
             T.append(("rdec", "a = %s;\nprint a;\n" % txt, None))
+        # boundary literals of std::stod (glibc ERANGE rule: overflow; tiny AFTER rounding and inexact) -- Model/Strtod.lean
+        for txt in ["2.22507385850720119781e-308", "2.2250738585072014e-308", "2.2250738585072013e-308", "2.2250738585072011e-308",
+                    "2.225073858507201383e-308", "2.2250738585072012e-308", "4.9406564584124654e-324", "4.9e-324", "5e-324", "2.5e-324",
+                    "1.7976931348623157e308", "1.7976931348623158e308", "1.7976931348623159e308", "1.797693134862315807e308",
+                    "17976931348623157" + "0" * 292 + ".0", "1e308", "1e309", "1e400", "1e-400", "1e-323", "1e-324", "0.0e-999", "0e999",
+                    "0." + "0" * 307 + "22250738585072014", "0." + "0" * 307 + "2225073858507201", "1.1125369292536007e-308",
+                    "4.4501477170144023e-308", "8.98846567431158e307", "9007199254740993.0", "9007199254740992.0", "0.1e1", "100e-2"]:
+            T.append(("rdecb", "a = %s;\nprint a;\n" % txt, None))
         for i in range(60 if quick else 600):
             v = r.choice([r.randint(0, 2 ** 64 - 1), r.randint(0, 2 ** 63 - 1), 2 ** r.randint(0, 64) - r.randint(0, 1), r.randint(0, 1000)])
             v = min(v, 2 ** 64 - 1)
@@ -641,7 +649,7 @@ class C12(Check):
         if model.startswith("perr:"):
             if p1.startswith("perr:"):
                 self.count("rejected_by_both")
-                if tag != "rejected" and fam not in ("rint", "rdec", "lit"):
+                if tag != "rejected" and fam not in ("rint", "rdec", "rdecb", "lit"):
                     self.count("unexpected_rejection_" + fam)
                 return
             return self.viol("the parser model rejects (%s) a text the implementation accepts" % model, c, p1, M)
